@@ -292,6 +292,11 @@ func runC06(r *ev.Run) {
 	abortPoints.Add(stopRuns)
 	searches.Add(stopRuns)
 
+	// (e) the spsa build with in-range parameter values (thorough tier)
+	if r.Thorough() {
+		r.Set("spsa_pass", c06SpsaPass(r))
+	}
+
 	// (d) through the UCI `go` command with arbitrary numeric arguments
 	uciN := c06UCI(r)
 
